@@ -6,6 +6,7 @@
   Core Lean only.
 -/
 import FianoModel.Uefi.ValidateLemmas
+import FianoModel.Uefi.ValidateLoc
 import FianoModel.Base.ArithTie
 
 namespace Fiano.Uefi
@@ -316,11 +317,6 @@ theorem parseFiles_cons_inv {h : Hooks} {fuel : Nat} {data : Bytes} {offset lh l
                 exact ⟨fuel0, st2, rfl, h1, by omega, hpf, h3, hrest⟩
     · simp [h1] at hp
 
-
-/-- offset reached by the walk after the files `gs`, started at `off` -/
-def startAfter : List File → Nat → Nat
-  | [], off => off
-  | g :: gs, off => startAfter gs (align8 off + g.info.extSize)
 
 theorem walk_bounds {h : Hooks} {data : Bytes} {lh length : Nat} {f : File} {post : List File} {free : Nat} {st1 : St}
     (hbig : data.length + 8 < 2 ^ 64) :
